@@ -72,6 +72,16 @@ CHECKS = {
          'assert/retract, first-argument clause selection); each cell must behave exactly as with the literal.',
     note='Only agreement with the literal is asserted; consumers are used inside their documented domains (a cell whose literal '
          'gives no value makes the run inconclusive). K2b (clause selection with boxed integers) is a KNOWN-FINDING.'),
+ 'C10': dict(
+    level='exploration',
+    technique='runtime monitoring: reference rational-tree unification (Python) next to the engine + post-state invariants (X == Y, no outside binding, bindings undone on failure)',
+    text='Generated term pairs (shared variable pools, all number kinds incl. boxed-small/bignum/rational, strings vs char lists '
+         'vs partial lists, mutated copies, variants, would-be-cyclic and aliased pairs) are unified by the real engine; the '
+         'outcome and the instantiated f(X,Y,Vars) must be a variant of the reference mgu applied to it, X == Y must hold '
+         'afterwards, a failed unification must leave f(X,Y,Vars) untouched; unify_with_occurs_check/2 and = under '
+         'occurs_check=true/error are compared with "a finite unifier exists".',
+    note='Trusted: the Python unifier. Attributed variables excluded (C26). With occurs_check=error a non-unifiable pair may fail '
+         'or raise (a cyclic binding can be met before the mismatch).'),
 }
 
 NOT_APPLICABLE_REASON_UNBUILT = ('check designed in DESIGN.md but not built/validated yet in this session; '
